@@ -49,6 +49,12 @@ Section C08.
     Invariant st /\ forall n c, crit_get (criteria_of st) n = Some c -> is_satisfying st n c = true.
   Proof. intros fuel st W. exact (resolve_returns_satisfied _ _ _ _ _ _ _ _ _ W fuel st). Qed.
 
+  (* buildGraph never fails on a state the resolution returns (the bound on hasRouteToRoot's
+     recursion suffices; the unexpected-package error is unreachable) *)
+  Theorem C08_graph_total : forall fuel st,
+    WF -> ResolveState fuel = Ok st -> exists g, Resolve fuel = Ok g.
+  Proof. intros fuel st W. exact (graph_total _ _ _ _ _ _ _ _ _ W fuel st). Qed.
+
   (* ---- the clauses of the property ---- *)
 
   (* exactly one version per package *)
@@ -68,11 +74,15 @@ Section C08.
     WF -> ResolveState fuel = Ok st -> vm_get (mapping st) (vk_name root) = Some v -> v = root.
   Proof. intros fuel st v W. exact (root_pin_fixed _ _ _ _ _ _ _ _ _ W fuel st v). Qed.
 
-  (* requirements whose marker is false contribute nothing: every edge carries a requirement d that
-     some version par of the source's package has (par is the source itself unless that package was
-     pinned again later), that names the target's package, and whose marker is absent or evaluated
-     true for some set of extras *)
-  Theorem C08_false_marker_nothing : forall fuel g f t rqv ty,
+  (* requirements whose marker is false contribute nothing, as far as it holds: every edge carries a
+     requirement d that some version par of the source's package has (par is the source itself
+     unless that package was pinned again later), that names the target's package, and whose marker
+     is absent or evaluated true for some set E of extras; in particular a requirement whose marker
+     is false whatever the extras never yields an edge.
+     MISSING with respect to the property: E is the set of extras in force when par was pinned,
+     which may contain extras requested only by versions that are no longer in the graph
+     (F-C08-3, refuted below). *)
+  Theorem C08_false_marker_nothing_partial : forall fuel g f t rqv ty,
     WF -> Resolve fuel = Ok g -> In (f, t, rqv, ty) (g_edges g) ->
     exists fv tv par d E l,
       nth_error (g_nodes g) f = Some fv /\ nth_error (g_nodes g) t = Some tv /\
@@ -115,10 +125,11 @@ End C08.
 Print Assumptions C08_pin_preserves_Inv.
 Print Assumptions C08_backtrack_preserves_Inv.
 Print Assumptions C08_resolve_returns_satisfied.
+Print Assumptions C08_graph_total.
 Print Assumptions C08_one_version.
 Print Assumptions C08_root_fixed.
 Print Assumptions C08_root_pin_fixed.
-Print Assumptions C08_false_marker_nothing.
+Print Assumptions C08_false_marker_nothing_partial.
 Print Assumptions C08_edges_sat.
 Print Assumptions C08_reachable.
 Print Assumptions C08_edges_complete_sat_partial.
@@ -144,6 +155,22 @@ Print Assumptions C08_edges_complete_refuted_route.
 Theorem C08_edges_complete_refuted_extras : ~ C08_edges_complete_full.
 Proof. exact edges_complete_refuted_extras. Qed.
 Print Assumptions C08_edges_complete_refuted_extras.
+
+(* The false-marker clause at full strength: an edge labelled with a requirement d of its source
+   exists only if d's marker is true for the extras requested of the source by its incoming edges.
+   It is FALSE of the resolver as written. *)
+Definition C08_false_marker_full : Prop :=
+  forall c_versions c_requirements c_matching marker_true has_pre constraint_ok match_pre ver_lt root g,
+    client_wf c_versions c_requirements c_matching ->
+    (forall v l, c_requirements v = Ok l -> NoDup (map rq_name l)) ->
+    resolve c_versions c_requirements c_matching marker_true has_pre constraint_ok match_pre ver_lt root = Ok g ->
+    false_marker_clause c_requirements marker_true g.
+
+(* F-C08-3: root -> w, k; w 2.0 -> x, y; w 1.0 -> y; x -> z[e2]; y -> w<2; k -> z; z -> m ; extra == e2.
+   x requests z[e2] and is then cut off (w 2.0 is replaced by w 1.0); the graph keeps z -> m. *)
+Theorem C08_false_marker_refuted_stale : ~ C08_false_marker_full.
+Proof. exact false_marker_refuted_stale. Qed.
+Print Assumptions C08_false_marker_refuted_stale.
 
 (* Non-vacuity: a well-formed client (answers of the Go LocalClient for a seven-package universe
    with a false marker, an extra and a conflict) on which the resolution backtracks once and
